@@ -525,12 +525,15 @@ def analyse(spec, inherited):
     """What the property demands of this robot definition."""
     up = parents_of(spec)
     info = {}                                   # oid -> class id
+    truthy = {}
     for oid, kind, cid in spec["pool"]:
         info[oid] = cid if kind == "inst" else KIND_CLS[kind]
+        truthy[oid] = KIND_TRUTHY[kind]
     rattrs = {}                                 # every name of dir(robot): (kind, oid|None)
-    for n, (oid, cid, truthy, kind, isnone) in inherited.items():
+    for n, (oid, cid, tr, kind, isnone) in inherited.items():
         rattrs[n] = (kind, None if isnone else oid)
         info[oid] = cid
+        truthy.setdefault(oid, bool(tr))
     for n, lvl, kind, v in spec["rattrs"]:
         rattrs[n] = (kind, v)
     inj = {}
@@ -545,6 +548,7 @@ def analyse(spec, inherited):
         if form[0] == "comp":
             comps.append((n, form[1], 500 + i))
             info[500 + i] = comp_cid(form[1])
+            truthy[500 + i] = not spec["comps"][form[1]]["falsy"]
         elif form[0] == "nontype":
             faults.append(("robot", n, n, "nontype", 2))
         # ("cls", builtin) without a value is not generated
@@ -552,17 +556,30 @@ def analyse(spec, inherited):
     def pick(m, c, a):
         return m.get(a, m.get("%s_%s" % (c, a)))
 
+    def state(m, name, T):
+        """how the object stored under `name` relates to the annotated type T"""
+        if name not in m:
+            return "None" if (name in rattrs and rattrs[name] == ("plain", None)) else "absent"
+        o = m[name]
+        if not is_sub(up, info[o], T):
+            return "wrong"
+        if not truthy.get(o, True):
+            return "falsy"
+        return "right" if info[o] == T else "subclass"
+    combos = []
+
     def req(m, c, a, form, where):
         ft = form_type(form)
         if ft[0] == "nontype":
             faults.append((where, c, a, "nontype", 2))
             return None
+        combos.append((where, state(m, a, ft[1]), state(m, "%s_%s" % (c, a), ft[1])))
         o = pick(m, c, a)
         if o is None:
             faults.append((where, c, a, "absent", 1))
             return None
         if not is_sub(up, info[o], ft[1]):
-            faults.append((where, c, a, "mistyped", 1))
+            faults.append((where, c, a, "mistyped-under-plain-name" if a in m else "mistyped-under-prefixed-name", 1))
             return None
         return o
     exp_ctor, exp_attr, rel = {}, {}, {}
@@ -590,9 +607,9 @@ def analyse(spec, inherited):
         for a, form in md["hints"]:
             if a.startswith("_") or a in has:
                 continue
-            exp_attr[("m", j, a)] = req(m, md["name"], a, form, "attr")
+            exp_attr[("m", j, a)] = req(m, md["name"], a, form, "mode")
     return {"comps": comps, "faults": faults, "exp_ctor": exp_ctor, "exp_attr": exp_attr, "rel": rel,
-            "info": info, "inj": inj}
+            "info": info, "inj": inj, "combos": combos}
 
 
 def classify(m, inj, comps, c, a):
@@ -621,7 +638,9 @@ def oracle(spec, res):
         return v
     if faults:
         f = faults[0]
-        v.append(("started-with-%s-dependency" % f[3], "startup succeeded although %s request %s.%s is %s" % (f[0], f[1], f[2], f[3])))
+        v.append(("started-with-%s-dependency/%s" % (f[3], f[0]),
+                  "startup succeeded although the %s request %s.%s is %s (clause: 'if no such object exists or it is not an "
+                  "instance of the annotated type, startup fails with an injection error')" % (f[0], f[1], f[2], f[3])))
         return v
     b = types.SimpleNamespace(spec=spec)
     order = res["order"]
@@ -1092,6 +1111,8 @@ def repair(spec, keep, rng):
         if not faults:
             return spec
         where, c, a, kind, _ = faults[0]
+        if where == "mode":
+            where = "attr"
         if where == "robot":
             spec["rhints"] = [h for h in spec["rhints"] if h[0] != a]
             continue
@@ -1124,7 +1145,7 @@ def repair(spec, keep, rng):
                 spec["pool"].append([oid, kindo, cid if kindo == "inst" and cid >= 20 else (20 if kindo == "inst" else 0)])
             spec["rattrs"].append([pa, rng.choice(["class", "create"]), "plain", oid])
             spec["rattrs"].sort()
-        elif kind in ("mistyped", "nontype") and form != ["cls", 0]:
+        elif (kind.startswith("mistyped") or kind == "nontype") and form != ["cls", 0]:
             e[-1] = ["cls", 0]
         else:
             holder[key] = [x for x in holder[key] if x is not e]
@@ -1154,6 +1175,99 @@ def edge_specs(rng):
             g.forced = [rel]
             out.append(g.make())
     return out
+
+
+STATES = ["absent", "right", "subclass", "wrong", "falsy", "None"]
+
+
+def product_specs(rng, reps):
+    """The relation between one annotated attribute and the robot's objects as a
+    deliberately enumerated product:
+      target kind {component attribute, constructor parameter, mode attribute}
+      x object under the plain name   {absent, right type, subclass instance, wrong type, falsy, None}
+      x object under '<target>_<name>' {the same six},
+    `reps` robots per combination (alone, or embedded in a random well-formed
+    robot; class / createObjects level; both startup paths)."""
+    out = []
+    for tkind in ("attr", "ctor", "mode"):
+        for plain in STATES:
+            for pref in STATES:
+                for rep in range(reps):
+                    out.append(product_spec(rng, tkind, plain, pref, embed=(rep % 2 == 1)))
+    return out
+
+
+def product_spec(rng, tkind, plain, pref, embed):
+    if embed:
+        spec = repair(Gen(rng, "valid").make(), 0, rng)
+    else:
+        spec = {"data_classes": [], "pool": [], "rattrs": [], "rhints": [], "rbase": rng.random() < 0.3,
+                "create_in_base": rng.random() < 0.5, "comps": [], "modes": [], "path": rng.choice(["create", "create", "init"])}
+    have = {d[0] for d in spec["data_classes"]}
+    for d in ([20, 0], [21, 20], [22, 0]):
+        if d[0] not in have:
+            spec["data_classes"].append(d)
+    parent = {d[0]: d[1] for d in spec["data_classes"]}
+    # type family: a generated class (right = instance, subclass = instance of a child, wrong = an
+    # unrelated instance) or int (right = an int, subclass = True, falsy = 0)
+    use_int = "falsy" in (plain, pref) or rng.random() < 0.3
+    def anc(c):
+        out = []
+        while c:
+            out.append(c)
+            c = parent.get(c, 0)
+        return out
+    child = [c for c in parent if c != 20 and 20 in anc(c)]
+    unrelated = [c for c in parent if 20 not in anc(c)]
+    if not child:
+        child = [max(parent) + 1]
+        spec["data_classes"].append([child[0], 20])
+        parent[child[0]] = 20
+    if not unrelated:
+        unrelated = [max(parent) + 1]
+        spec["data_classes"].append([unrelated[0], 0])
+        parent[unrelated[0]] = 0
+
+    def new_obj(kind, cid=0):
+        if kind in SINGLETONS:
+            for x in spec["pool"]:
+                if x[1] == kind:
+                    return x[0]
+        oid = len(spec["pool"]) + 1
+        spec["pool"].append([oid, kind, cid])
+        return oid
+
+    def value(st):
+        if st == "None":
+            return None
+        if use_int:
+            return {"right": lambda: new_obj("int"), "subclass": lambda: new_obj("true"),
+                    "wrong": lambda: new_obj(rng.choice(["str", "inst"]), unrelated[0]), "falsy": lambda: new_obj("zero")}[st]()
+        return {"right": lambda: new_obj("inst", 20), "subclass": lambda: new_obj("inst", child[0]),
+                "wrong": lambda: new_obj("inst", unrelated[0])}[st]()
+    T = 1 if use_int else 20
+    names = {x[0] for x in spec["rattrs"]} | {h[0] for h in spec["rhints"]} | {m["name"] for m in spec["modes"]}
+    tname = [n for n in ("p", "q", "pc", "pm") if n not in names][0]
+    attr = [n for n in ("v", "w", "vv") if n not in names and "%s_%s" % (tname, n) not in names][0]
+    for nm, st in ((attr, plain), ("%s_%s" % (tname, attr), pref)):
+        if st != "absent":
+            spec["rattrs"].append([nm, rng.choice(["class", "create"] + (["base"] if spec["rbase"] else [])), "plain", value(st)])
+    spec["rattrs"].sort(key=lambda x: x[0])
+    hintform = ["cls", T]
+    if tkind == "mode":
+        spec["modes"].append({"name": tname, "hints": [[attr, hintform]], "presets": [], "setup": rng.random() < 0.5})
+    else:
+        cc = {"base": rng.random() < 0.2, "hints": [], "init": None, "init_level": rng.choice([0, 1]), "presets": [],
+              "setup": rng.random() < 0.6, "falsy": False}
+        if tkind == "attr":
+            cc["hints"] = [[attr, rng.choice([0, 1]) if cc["base"] else 1, hintform]]
+        else:
+            cc["init"] = [[attr, hintform]]
+            if rng.random() < 0.5:
+                cc["presets"] = [[attr + "_kept", "init", ["param", attr]]]
+        spec["comps"].append(cc)
+        spec["rhints"].insert(rng.randint(0, len(spec["rhints"])), [tname, "class", ["comp", len(spec["comps"]) - 1]])
+    return spec
 
 
 def load_corpus():
@@ -1360,6 +1474,7 @@ def run(ctx):
     specs = load_corpus()
     ncorpus = len(specs)
     specs += edge_specs(ctx.rng)
+    specs += product_specs(ctx.rng, 6 if ctx.tier == "quick" else 40)
     while len(specs) < ncorpus + n_random:
         specs.append(gen_spec(ctx.rng))
     outs = run_many(specs)
@@ -1379,6 +1494,8 @@ def run(ctx):
             ctx.count("attr-relation=%s" % rel)
         for f in an["faults"]:
             ctx.count("fault=%s/%s" % (f[0], f[3]))
+        for where, st_plain, st_pref in an["combos"]:
+            ctx.count("combo=%s|plain=%s|prefixed=%s" % (where, st_plain, st_pref))
         ctx.count("faults=%s" % (len(an["faults"]) if len(an["faults"]) < 3 else ">=3"))
         if any(spec["comps"][k]["init"] for _, k, _ in an["comps"]):
             ctx.count("with-constructor-injection")
@@ -1418,7 +1535,9 @@ def run(ctx):
         "distinct_nontrivial": len(nontrivial),
         "rule": "robot definitions (0-4 components over shared/inherited classes, 0-5 annotated attributes each, constructor "
                 "parameters, 0-2 autonomous modes, class/base-class/createObjects robot attributes) built with type() and started "
-                "through _create_components() or robotInit(); every relation of the quantifier is forced at least 4 times, "
+                "through _create_components() or robotInit(); every relation of the quantifier is forced at least 4 times, the product "
+                "{component attribute, ctor parameter, mode attribute} x {absent,right,subclass,wrong,falsy,None} under the plain "
+                "name x the same under '<target>_<name>' is enumerated (6 | 40 robots per combination, see distribution combo=*), "
                 "then 60% fault-free / 30% one planted fault / 10% wild; non-trivial = started with >= 2 components and a "
                 "cross-component reference or >= 3 injected attributes, or exactly one fault",
         "samples": samples, "exhaustive": False, "corpus_cases": ncorpus})
